@@ -6,4 +6,6 @@ export CARGO_NET_OFFLINE=true
 (cd xt && cargo build --release --offline 2>&1 | tail -3)
 if [ -f bounded/Cargo.toml ]; then (cd bounded && cargo build --release --offline 2>&1 | tail -3); fi
 mkdir -p build evidence replay
+# warm the persistent build caches of the C15 harness (cargo-libcnb from /repo and the generated workspace); the check rebuilds incrementally
+if [ -x bounded/target/release/bounded ]; then ./bounded/target/release/bounded c15_package >/dev/null 2>&1 || true; fi
 echo setup-ok
